@@ -3,3 +3,6 @@ CHECK_DEADLOCK FALSE
 \* see TraceBytes.cfg
 CONSTANT LsEff <- LsWithKnownFindings
 CONSTANT SuccKey <- Neg_SuccKey
+CONSTANT MaxLevels <- EnvMaxLevels
+CONSTANT MaxHeightAt <- EnvMaxHeightAt
+CONSTANT MinWAt <- EnvMinWAt
